@@ -152,6 +152,16 @@ func runHist(p *Plan, keepLog bool) *RunResult {
 		}
 	}
 
+	if os.Getenv("ZSIM_NOFILE") != "" {
+		// fault injected into every would-be I/O of the lint phase: no descriptor can be opened
+		var rl syscall.Rlimit
+		if syscall.Getrlimit(syscall.RLIMIT_NOFILE, &rl) == nil {
+			rl.Cur = 0
+			if syscall.Setrlimit(syscall.RLIMIT_NOFILE, &rl) == nil {
+				h.ctr.inc("nofile_rlimit_applied")
+			}
+		}
+	}
 	writeMarker("BEGIN")
 	for i := range p.Ops {
 		if h.aborted {
@@ -161,7 +171,9 @@ func runHist(p *Plan, keepLog bool) *RunResult {
 	}
 	writeMarker("END")
 
-	h.oraclePhase()
+	if workerMode != "noref" {
+		h.oraclePhase()
+	}
 
 	res := &RunResult{Seed: p.Seed, Engine: "hist", Prop: p.Prop, TraceHash: h.log.Hash(), Steps: h.log.Seq(), Ops: len(p.Ops),
 		Checks: h.checks, Counters: h.ctr, Violations: h.viol, Nontrivial: h.nontriv, Distinct: map[string][]string{}}
@@ -510,6 +522,8 @@ func (h *histState) doFilter(i int, op *Op) {
 			return
 		}
 		h.log.Add("op %d filter reg=%d -> error (as documented: %s)", i, op.Reg, v.Why)
+		h.mark("filter_shapes", filterShape(op.Opts, v))
+		h.mark("filter_shapes_seeded", shortHash(fmt.Sprintf("%d|%d|%s", h.p.Seed, i, filterShape(op.Opts, v))))
 		return
 	}
 	if ferr != nil {
@@ -547,6 +561,7 @@ func (h *histState) doFilter(i int, op *Op) {
 	}
 	h.log.Add("op %d filter reg=%d %s -> reg %d with %d lints", i, op.Reg, op.Opts, len(h.regs)-1, len(v.Sel))
 	h.mark("filter_shapes", filterShape(op.Opts, v))
+	h.mark("filter_shapes_seeded", shortHash(fmt.Sprintf("%d|%d|%s", h.p.Seed, i, filterShape(op.Opts, v))))
 	h.checkChild(i, len(h.regs)-1, op.Reg)
 }
 
